@@ -152,7 +152,7 @@ def shard(ctx, n, sub):
 
 
 def main(ctx):
-    n = ctx.pick(300, 8000)
+    n = ctx.pick(300, 50000)
     ctx.shards("shard", [{"n": n, "sub": s} for s in range(16)])
     ctx.require("configs_converted", 1000)
     ctx.require("config_dir_values_rewritten", 50)
